@@ -506,7 +506,7 @@ class FileIndex(Index):
             # from the TOC they were merged away or cleared by a commit.
             from whoosh.codec.memory import MemSegment
 
-            segments.extend([segment for segment in reuse.segments()
+            segments.extend([segment for segment in (reuse.segments() or ())
                              if isinstance(segment, MemSegment)
                              and segment not in segments])
 
